@@ -444,6 +444,14 @@ func (fv *FV) loopCtx(li *LoopInfo, st *State) *SpecCtx {
 		ctx.vars[k+"0"] = v
 	}
 	ctx.cellVars = fv.cellVarsOf()
+	// freshloop(x): allocated since this loop was entered
+	if li.preSt != nil {
+		ctx.loopBase = li.preSt.wm
+		ctx.loopPre = li.preSt
+	} else {
+		ctx.loopBase = st.wm
+		ctx.loopPre = st
+	}
 	head := li.head
 	ctx.lookup = func(name string, s *State) (SVal, bool) {
 		a := fv.localByName(name, head)
@@ -485,6 +493,7 @@ func (fv *FV) loopCtx(li *LoopInfo, st *State) *SpecCtx {
 }
 
 func (fv *FV) loopHead(li *LoopInfo, in *State) *State {
+	li.preSt = nil
 	ctx := fv.loopCtx(li, in)
 	var invs []*Clause
 	if li.spec != nil {
